@@ -10,7 +10,7 @@ TB = ("Trusted: CPython semantics of the inherited builtins, typeshed signatures
 
 CHECKS = {
     "C06": dict(
-        category="proof",
+        category="other",
         technique="grammar stratification check + LALR(1) conflict-freeness + stack-effect abstract interpretation of DumpAST per production",
         text="Decides precedence/associativity as a property of cel.lark (stratification against CEL's level table, LALR(1) table "
              "built without conflicts with the options read from CELParser.__init__), the keyword-literal retyping table, the ignored "
@@ -50,7 +50,7 @@ CHECKS["C02"] = dict(
     note=TB)
 
 CHECKS["C13"] = dict(
-    category="proof",
+    category="other",
     technique="operator dispatch matrix resolved through the MRO against CEL's operator typing table; return-expression analysis",
     text="For every row of CEL's operator typing table restricted to celpy's types the resolved cell (direct, and reflected where reachable) must be a "
          "repository method whose every return builds the result class; function_*, macro_*, boolean(), operator_in, has() must return CEL classes; the "
